@@ -11,6 +11,7 @@ import RbV.Lemmas.PoaConsensus
 import RbV.Lemmas.PoaBandedFull
 import RbV.Lemmas.PoaModes
 import RbV.Lemmas.PoaGrowAll
+import RbV.Lemmas.PoaChainLink
 /-!
 # C16 — partial-order alignment: exact on linear graphs, graph stays a growing DAG
 
@@ -233,6 +234,27 @@ theorem model_banded_full_band_equals_global (sc : Sc) (labels : List Nat) (es :
     Poa.Model.bandedScore sc Poa.Model.minScore Poa.Model.minScore labels es query bw =
       (Poa.Model.globalAlign sc labels es query).1 :=
   Poa.Model.bandedScore_full sc labels es query bw ⟨hne, hwf, hac⟩ hbw hgap hmin
+
+/-- **score clause for the general DP of the model**: on the graph built from one non-empty sequence `x`
+(`chainG x` = `Poa::from_string`) the score `global` reports in the model — `topo`, the per-predecessor
+recurrence over the whole graph, Rust tie-breaks — is the Needleman–Wunsch optimum.  (`topo` of the chain is
+`0, 1, …`, each node's only predecessor is the one before it, so `dpRows` computes the rows of `chainRows`;
+then `chain_dp_is_optimum`.) -/
+theorem model_global_on_linear_graph_is_optimum (sc : Sc) (x q : List Nat) (hx : x ≠ []) :
+    (Poa.Model.globalAlign sc x (Poa.Model.chainG x).es q).1 = nwBest sc x q := by
+  rw [Poa.Model.chainG_es, Poa.Model.globalAlign_chain sc x q hx]
+  exact Poa.Model.chainScore_eq_nwBest sc x q
+
+/-- **banded clause on linear graphs, for the model**: with default clip penalties and a bandwidth of at least
+the query length the banded model reports the Needleman–Wunsch optimum (side conditions as in
+`model_banded_full_band_equals_global`) -/
+theorem model_banded_on_linear_graph_is_optimum (sc : Sc) (x q : List Nat) (bw : Nat) (hx : x ≠ [])
+    (hbw : q.length ≤ bw) (hgap : sc.gap ≤ 0)
+    (hmin : Poa.Model.minScore < ((x.length + q.length + 1 : Nat) : Int) * sc.gap) :
+    Poa.Model.bandedScore sc Poa.Model.minScore Poa.Model.minScore x (Poa.Model.chainG x).es q bw = nwBest sc x q := by
+  have hd := Poa.Model.chainG_dag x hx
+  rw [Poa.Model.bandedScore_full sc x (Poa.Model.chainG x).es q bw hd hbw hgap hmin]
+  exact model_global_on_linear_graph_is_optimum sc x q hx
 
 /-- **every alignment mode keeps the graph a DAG** (DESIGN [C], full statement).  `stepAdd sc cl g mode q` is
 `add_to_graph()` after `global` / `semiglobal` / `local` / `custom` (configured clip penalties `cl`) /
